@@ -171,3 +171,70 @@ Definition C16_delete_immediate_stmt : Prop :=
     step cfg s (ODestroy h) = (Ret RNone, s') ->
     log s' = [SDelete Lazy (i_id (get_inst s o))] /\
     assoc (i_id (get_inst s o)) (t_rows (tbl s' Lazy)) = None.
+
+(* ---------------------------------------------------------------- C16 (a lazy object keeps showing its unwritten assignments) *)
+(* every pending value is what the attribute shows, unless the attribute is absent (expired, to be reloaded) *)
+Definition pending_shown (i : inst) : Prop :=
+  forall c v, nassoc c (i_pending i) = Some v -> nth c (i_vals i) None = Some v \/ nth c (i_vals i) None = None.
+
+(* the histories of C16_pending_shown: EVERY operation of the harness (expire, expireAll, clear, pickling,
+   out-of-band SQL and injected faults included) *)
+Definition guard16 (o : op) : bool := true.
+
+Definition C16_pending_shown_stmt : Prop :=
+  forall cfg ops o,
+    forallb guard16 ops = true ->
+    let s := run cfg ops in
+    held s o -> cache_values (i_k (get_inst s o)) = true -> pending_shown (get_inst s o).
+
+(* one step, from ANY state: reading a column with a pending value returns that value (or raises), keeps
+   the pending set and writes nothing.  The pending set is a dict (unique columns) and the stored row, if
+   any, has the three columns -- both hold on every reachable state. *)
+Definition C16_read_returns_pending_stmt : Prop :=
+  forall cfg s h o c v r s',
+    nth h (slots s) None = Some o -> (o < length (heap s))%nat ->
+    is_lazy (i_k (get_inst s o)) = true -> pending_shown (get_inst s o) ->
+    NoDup (map fst (i_pending (get_inst s o))) ->
+    (forall row, assoc (i_id (get_inst s o)) (t_rows (tbl s (i_k (get_inst s o)))) = Some row -> length row = 3%nat) ->
+    nassoc c (i_pending (get_inst s o)) = Some v -> (c < 3)%nat ->
+    step cfg s (ORead h c) = (r, s') ->
+    (r = Ret (RVal v) \/ exists e, r = Raise e) /\
+    pending_shown (get_inst s' o) /\ i_pending (get_inst s' o) = i_pending (get_inst s o) /\ tables s' = tables s.
+
+(* ... and it does return the value when the row is there (a step injects no fault) *)
+Definition C16_read_returns_pending_present_stmt : Prop :=
+  forall cfg s h o c v r s',
+    nth h (slots s) None = Some o -> (o < length (heap s))%nat ->
+    is_lazy (i_k (get_inst s o)) = true -> pending_shown (get_inst s o) ->
+    NoDup (map fst (i_pending (get_inst s o))) ->
+    (forall row, assoc (i_id (get_inst s o)) (t_rows (tbl s (i_k (get_inst s o)))) = Some row -> length row = 3%nat) ->
+    nassoc c (i_pending (get_inst s o)) = Some v -> (c < 3)%nat ->
+    assoc (i_id (get_inst s o)) (t_rows (tbl s (i_k (get_inst s o)))) <> None ->
+    step cfg s (ORead h c) = (r, s') ->
+    r = Ret (RVal v).
+
+(* the same on every reachable state, where the two side conditions come for free *)
+Definition C16_read_returns_pending_reachable_stmt : Prop :=
+  forall cfg ops h o c v r s',
+    let s := run cfg ops in
+    nth h (slots s) None = Some o ->
+    is_lazy (i_k (get_inst s o)) = true ->
+    nassoc c (i_pending (get_inst s o)) = Some v -> (c < 3)%nat ->
+    step cfg s (ORead h c) = (r, s') ->
+    (r = Ret (RVal v) \/ r = Raise ENotFound) /\
+    (assoc (i_id (get_inst s o)) (t_rows (tbl s (i_k (get_inst s o)))) <> None -> r = Ret (RVal v)) /\
+    pending_shown (get_inst s' o) /\ i_pending (get_inst s' o) = i_pending (get_inst s o) /\ tables s' = tables s.
+
+(* ---------------------------------------------------------------- C05 (expire always drops what was cached) *)
+(* expire() then a read shows the stored row or raises not-found, whatever the instance had cached and
+   whether or not it was already expired (cacheValues classes) -- on ANY state *)
+Definition C05_expire_always_refreshes_stmt : Prop :=
+  forall cfg s h o c r1 s1 r2 s2,
+    nth h (slots s) None = Some o -> (o < length (heap s))%nat ->
+    cache_values (i_k (get_inst s o)) = true ->
+    step cfg s (OExpire h) = (r1, s1) -> step cfg s1 (ORead h c) = (r2, s2) ->
+    r1 = Ret RNone /\
+    match assoc (i_id (get_inst s o)) (t_rows (tbl s (i_k (get_inst s o)))) with
+    | Some row => r2 = Ret (RVal (nth c row VNull))
+    | None => r2 = Raise ENotFound
+    end.
